@@ -36,6 +36,7 @@ type cfgT struct {
 	UTF8Adv  bool `json:"utf8adv"`
 	UTF8     bool `json:"utf8"`
 	SaslIR   bool `json:"saslir"`
+	AppLimit bool `json:"applimit"`
 }
 
 type caseT struct {
@@ -372,6 +373,9 @@ func runCase(cs *caseT) ([]map[string]interface{}, error) {
 	if cs.Cfg.SaslIR {
 		caps += " SASL-IR"
 	}
+	if cs.Cfg.AppLimit {
+		caps += " APPENDLIMIT=10000000"
+	}
 	sc.Write([]byte("* OK [CAPABILITY " + caps + "] ready\r\n"))
 	cl := imapclient.New(cc, nil)
 	defer vh.Within(2*time.Second, func() { cl.Close() })
@@ -609,7 +613,7 @@ func main() {
 		cmds := []string{"LOGIN", "SEARCHBODY", "CREATE", "RENAME", "LIST", "STATUS"}
 		for i := 0; i < n; i++ {
 			cs := &caseT{}
-			cs.Cfg = cfgT{LitPlus: r.Intn(3) == 0, Rev2: r.Intn(3) == 0, UTF8: r.Intn(3) == 0}
+			cs.Cfg = cfgT{LitPlus: r.Intn(3) == 0, Rev2: r.Intn(3) == 0, UTF8: r.Intn(3) == 0, AppLimit: r.Intn(3) == 0}
 			// (SASL-IR matters to AUTHENTICATE only, which the random cases do not issue)
 			cs.Cfg.LitMinus = cs.Cfg.LitPlus || cs.Cfg.Rev2 || r.Intn(2) == 0
 			cs.Cfg.UTF8Adv = cs.Cfg.UTF8 || r.Intn(2) == 0
